@@ -2,6 +2,7 @@ import NetVerif.Model.Dns
 import NetVerif.Gen.C36
 import NetVerif.Proofs.Lemmas.Dns
 import NetVerif.Proofs.C36
+import NetVerif.Proofs.Lemmas.DnsAccept
 /-!
 C37 — DNS parsing is safe and self-consistent on any input.
 
@@ -10,7 +11,13 @@ For ALL byte strings `msg` and offsets: `Name.unpack` terminates within the poin
 labels of 1..63 bytes without '.', the returned offset lies inside the message; `skipName` and
 `Name.unpack`, `SkipQuestion`/`Question`, `skipResource`/`resource`, and the whole-message skip
 and parse paths advance to the same offsets whenever both succeed; an accepted name re-packs and
-re-unpacks to itself.
+re-unpacks to itself; an accepted message is well formed in the sense of C36, hence re-packs and
+re-unpacks to an equal message (equal up to the `Length` header fields, as in the package's own
+FuzzUnpackPack) - exactly without compression, and up to the pointer-budget finding `ptr-depth`
+with `Message.Pack`'s compression (`repack_full_false`, `repack_holds_partial`).
+The `Parser` methods and `Message.Unpack` share one model (`Unpack` is defined through the
+Parser in Go, and the typed `XResource` methods call the same `unpackX` functions); their
+agreement on the real code is checked by the Go-side oracle.
 -/
 namespace NetVerif.Proofs.C37
 open NetVerif NetVerif.Model.Dns NetVerif.Proofs.Dns
@@ -390,5 +397,55 @@ theorem skipMessage_unpackMessage_agree (msg : Bytes) (o1 : Nat) (m : Message) (
                   simp at h2
                   have := skipResources_agree msg _ _ _ _ _ h1 hb4
                   omega
+
+/-! ## Accepted messages re-pack and re-unpack -/
+
+open NetVerif.Proofs.DnsAccept NetVerif.Proofs.DnsMsg
+
+/-- **What `Message.Unpack` accepts is well formed** (every name canonical, every field within
+its Go type, `Type` fields consistent with the bodies). -/
+theorem unpack_accepts_wellformed (b : Bytes) (m : Message) (hb : BytesWF b)
+    (hu : unpackMessage b = .ok m) : WFMessage m ∧ TypesConsistent m :=
+  unpackMessage_wf hb hu
+
+/-- C37, re-pack clause at full strength (for `Message.Pack`). FALSE (`repack_full_false`). -/
+def RepackStatement : Prop :=
+  ∀ (b : Bytes) (m : Message) (b' : Bytes), BytesWF b → unpackMessage b = .ok m →
+    packMessage m = .ok b' → ∃ m', unpackMessage b' = .ok m' ∧ eraseLens m' = eraseLens m
+
+/-- **Re-pack stability, what holds**: an accepted message that `Pack` packs (it does unless a
+decompressed body exceeds 65535 bytes) unpacks again to an equal message, or `Unpack` fails with
+`errTooManyPtr` (finding `ptr-depth`). -/
+theorem repack_holds_partial (b : Bytes) (m : Message) (b' : Bytes) (hb : BytesWF b)
+    (hu : unpackMessage b = .ok m) (hp : packMessage m = .ok b') :
+    (∃ m', unpackMessage b' = .ok m' ∧ eraseLens m' = eraseLens m) ∨
+      unpackMessage b' = .error .tooManyPtr := by
+  rcases unpackMessage_wf hb hu with ⟨hwf, ht⟩
+  rcases C36.message_holds_partial m b' hwf hp with ⟨l1, l2, l3, h1, h2, h3, h⟩ | h
+  · exact Or.inl ⟨_, h, eraseLens_norm m l1 l2 l3 ht h1 h2 h3⟩
+  · exact Or.inr h
+
+/-- Without compression the re-pack clause holds exactly. -/
+theorem repack_nocomp (b : Bytes) (m : Message) (b' : Bytes) (hb : BytesWF b)
+    (hu : unpackMessage b = .ok m) (hp : packMessageWith m none = .ok b') :
+    ∃ m', unpackMessage b' = .ok m' ∧ eraseLens m' = eraseLens m := by
+  rcases unpackMessage_wf hb hu with ⟨hwf, ht⟩
+  rcases C36.message_roundtrip_nocomp m b' hwf hp with ⟨l1, l2, l3, h1, h2, h3, h⟩
+  exact ⟨_, h, eraseLens_norm m l1 l2 l3 ht h1 h2 h3⟩
+
+/-- the twelve-nested-questions message, packed without compression: `Unpack` accepts it … -/
+def deepBytes : Bytes := (packMessageWith C36.deepMessage none).toOption.getD []
+
+theorem deepBytes_wf : BytesWF deepBytes := by unfold BytesWF; decide +kernel
+
+theorem deepBytes_accepted : unpackMessage deepBytes = .ok C36.deepMessage := by decide +kernel
+
+/-- … **finding `ptr-depth`**: but its re-pack does not unpack. -/
+theorem repack_full_false : ¬ RepackStatement := by
+  intro h
+  rcases C36.deepMessage_fails with ⟨b', hp, hu⟩
+  rcases h deepBytes C36.deepMessage b' deepBytes_wf deepBytes_accepted hp with ⟨m', hm, _⟩
+  rw [hu] at hm
+  cases hm
 
 end NetVerif.Proofs.C37
